@@ -484,6 +484,8 @@ func init() {
 				e2run("list-2c-f1-d4", e2p{Clients: 2, Type: "list", Prefix: "joined", Exchange: "pack", Faults: f, MaxFault: 1, Oracles: o}, 4, 0),
 				e2run("counter-2c-entry-f1-d5", e2p{Clients: 2, Type: "counter", Modes: []string{"soc"}, Exchange: "pack", Faults: []string{"drop", "dup"}, MaxFault: 1, Alpha: "one", Oracles: o}, 5, 0),
 				e2run("counter-2c-entry-cs-f1-d5", e2p{Clients: 2, Type: "counter", Modes: []string{"create", "subscribe"}, Exchange: "pack", Faults: []string{"drop", "dup"}, MaxFault: 1, Alpha: "one", Oracles: o}, 5, 0),
+				e2run("doc-2c-f1-d3", e2p{Clients: 2, Type: "doc", Prefix: "joined", Exchange: "pack", Faults: f, MaxFault: 1, Oracles: o[:4]}, 3, 0),
+				e2run("map-2c-entry-f1-d4", e2p{Clients: 2, Type: "map", Modes: []string{"soc"}, Exchange: "pack", Faults: f, MaxFault: 1, Oracles: o}, 4, 0),
 			}
 		} else {
 			p.BudgetS = 3300
@@ -667,7 +669,7 @@ func init() {
 func init() {
 	plans["C08"] = func(tier string) Plan {
 		p := Plan{ID: "C08", Level: "fault_enumeration",
-			Rule: "five scripted scenarios (create / subscribe / subscribe-or-create / push / pull-only / concurrent pushes / a transaction; counter, list, document, map with 3 clients) are first run fault-free to count the K database " +
+			Rule: "six scripted scenarios (create / subscribe / subscribe-or-create / push / pull-only / concurrent pushes / a transaction / REST patches of an existing and of an absent document next to client syncs - a patch answered with an error is retried after the faults; counter, list, document, map with 3 clients) are first run fault-free to count the K database " +
 				"commands they issue (including the background notification + snapshot update); a fault plan is a sequence of faults, each striking the a-th command counted from the previous strike (for a crash: from the restart): " +
 				"fail = the command is answered with an error and not executed; crash = executed, reply lost, server dies; crashb = the server dies before executing it (connections closed, in-flight request answered with a " +
 				"transport error, a new service + lock registry start over the surviving database while the dead process can reach nothing any more). Enumerated: EVERY single fault (3 kinds x every k in 1..K), EVERY pair of " +
